@@ -5,6 +5,15 @@ import json, os, subprocess, sys, tempfile, xml.etree.ElementTree as ET
 repo = sys.argv[1] if len(sys.argv) > 1 else "/repo"
 base = json.load(open("/root/.vp/BASELINE.json"))
 out = tempfile.mktemp(suffix=".xml")
+
+
+def untracked():
+    r = subprocess.run(["git", "-C", repo, "ls-files", "--others", "--exclude-standard"], capture_output=True, text=True)
+    return set(l for l in r.stdout.splitlines() if "__pycache__" not in l)
+
+
+before = untracked()
+clean_before = not subprocess.run(["git", "-C", repo, "status", "--porcelain", "-uno"], capture_output=True, text=True).stdout.strip()
 subprocess.run(["/venv/bin/python", "-m", "pytest", "-ra", "-q", "-p", "no:cacheprovider", "--timeout=900",
                 "--continue-on-collection-errors", "--junitxml=" + out], cwd=repo, capture_output=True, text=True)
 passed = set()
@@ -12,8 +21,15 @@ for tc in ET.parse(out).getroot().iter("testcase"):
     if not any(ch.tag in ("failure", "error", "skipped") for ch in tc):
         passed.add("%s::%s" % (tc.get("classname"), tc.get("name")))
 os.unlink(out)
-# the suite itself rewrites summary.txt in the checkout: put it back
-subprocess.run(["git", "-C", repo, "checkout", "--", "summary.txt"], capture_output=True)
+after = untracked()
+# the suite itself writes files into the checkout (summary.txt, test_files.txt, six integral/examples/*.json
+# exported by integral tests): remove exactly the untracked files that were not there before the run
+for f in after - before:
+    try:
+        os.unlink(os.path.join(repo, f))
+    except OSError:
+        pass
+subprocess.run(["git", "-C", repo, "checkout", "--", "."], capture_output=True) if clean_before else None
 missing = [t for t in base["stable_pass"] if t not in passed]
 print("passed now: %d; stable_pass: %d; stable_pass no longer passing: %d" % (len(passed), len(base["stable_pass"]), len(missing)))
 for t in missing:
